@@ -15,7 +15,7 @@ RULE = ('scenario (Hypothesis): 1-3 small programs read through io.read (open st
         'text), printer in {pretty, minify, minify+obfuscate}, source-map arrangement in {none, separate stream, same '
         'object as output, separate factory}, output as open stream or factory, stream names absolute / relative / '
         'relative with directory / containing a backslash (an ordinary character where the separator is /) / missing, sourcemap_normalize_mappings, sourcemap_normalize_paths, '
-        'source_mapping_url in {default, explicit, None}, nodes given as a single node / list / tuple / iterator / lazily produced generator (each pull is a fault point), programs whose printed form is empty, output stream encoding in {unset, utf-8, utf-16, ascii, latin-1, shift_jis} with programs whose identifiers lie outside those code pages (an inline map that cannot be encoded must fail, not be mislabelled). Streams are recording doubles. Fault points, enumerated '
+        'source_mapping_url in {default, explicit, None}, nodes given as a single node / list / tuple / iterator / lazily produced generator (each pull is a fault point), programs whose printed form is empty, an output or map stream opened in binary mode (open or from a factory: the call fails, what it opened is closed once), output stream encoding in {unset, utf-8, utf-16, ascii, latin-1, shift_jis} with programs whose identifiers lie outside those code pages (an inline map that cannot be encoded must fail, not be mislabelled). Streams are recording doubles. Fault points, enumerated '
         'exhaustively per scenario: the scenario is run fault-free to count every factory call, read, parser call, '
         'fragment pulled from the unparser, write and writelines; then re-run once per event with a marker exception '
         'raised at exactly that event (a third of the scenarios raise a BaseException subclass, the kind KeyboardInterrupt is; one scenario in sixteen prints a program of 150-1100 statements, whose map runs to tens of kilobytes, with a sample of its fault points; base64 payloads are decoded strictly). Oracle: fault-free - output text == fresh printer text + trailer; trailer URL '
@@ -90,6 +90,21 @@ class RecStream(object):
         return ''.join(self.buf)
 
 
+class BinStream(RecStream):
+    """a stream opened in binary mode, as open(name, 'wb') gives: text cannot be written to it"""
+    mode = 'wb'
+
+    def write(self, s):
+        self.ctl.tick('write:' + self.role)
+        if not isinstance(s, bytes):
+            raise TypeError("a bytes-like object is required, not '%s'" % type(s).__name__)
+        self.buf.append(s)
+
+    def writelines(self, lines):
+        for line in lines:
+            self.write(line)
+
+
 class Factory(object):
     def __init__(self, ctl, made, **kw):
         self.ctl = ctl
@@ -98,7 +113,9 @@ class Factory(object):
 
     def __call__(self):
         self.ctl.tick('factory:' + self.kw.get('role', ''))
-        s = RecStream(self.ctl, from_factory=True, **self.kw)
+        kw = dict(self.kw)
+        cls = BinStream if kw.pop('binary', False) else RecStream
+        s = cls(self.ctl, from_factory=True, **kw)
         self.made.append(s)
         return s
 
@@ -171,10 +188,11 @@ def run(sc, fault_at=None):
                     ctl.tick('fragment')
                     yield frag
             return ticking()
+        binary = sc.get('binary')
         if sc['out_factory']:
-            out = Factory(ctl, made, name=out_name, role='out', encoding=sc.get('encoding'))
+            out = Factory(ctl, made, name=out_name, role='out', encoding=sc.get('encoding'), binary=binary == 'out')
         else:
-            out = RecStream(ctl, name=out_name, role='out', encoding=sc.get('encoding'))
+            out = (BinStream if binary == 'out' else RecStream)(ctl, name=out_name, role='out', encoding=sc.get('encoding'))
             passed.append(out)
         arr = sc['map']
         if arr == 'none':
@@ -182,10 +200,10 @@ def run(sc, fault_at=None):
         elif arr == 'same':
             sm = out
         elif arr == 'separate':
-            sm = RecStream(ctl, name=map_name, role='map')
+            sm = (BinStream if binary == 'map' else RecStream)(ctl, name=map_name, role='map')
             passed.append(sm)
         else:
-            sm = Factory(ctl, made, name=map_name, role='map')
+            sm = Factory(ctl, made, name=map_name, role='map', binary=binary == 'map')
         kw = {'sourcemap_normalize_mappings': sc['norm_mappings'], 'sourcemap_normalize_paths': sc['norm_paths']}
         if sc['url'] == 'explicit':
             kw['source_mapping_url'] = 'explicit.map'
@@ -267,6 +285,13 @@ def check_scenario(acc, opens, sc):
     # ---- fault-free oracle
     if not check_closing(base, fail):
         return execs, 0
+    if sc.get('binary') and invalid is None:
+        # a stream that takes no text: the failure is the stream's (a write that fails, or a refusal up front) and
+        # reaches the caller; what was opened for the call has been closed (judged above)
+        if base['error'] is None:
+            fail('write_to_binary_stream_reported_no_error')
+        acc.label('binary_stream_' + sc['binary'])
+        return execs, (1 if sc['out_factory'] or sc['map'] == 'factory' else 0)
     if invalid is not None:
         e = base['error']
         name = NAMES[sc['names']][2][invalid]
@@ -473,6 +498,10 @@ def scenario(draw):
         sc['read_factory'] = sc['read_factory'][:1]
         sc['big'] = k
         sc['map'] = draw(st.sampled_from(['same', 'same', 'separate', 'factory']))
+    if draw(st.integers(0, 11)) == 0:
+        # the output (or the separate map) is a stream opened in binary mode
+        sc['binary'] = 'map' if (sc['map'] in ('separate', 'factory') and draw(st.booleans())) else 'out'
+        return sc
     if draw(st.integers(0, 3)) == 0:
         sc['encoding'] = draw(st.sampled_from(['utf-8', 'utf-16', 'ascii', 'latin-1', 'shift_jis']))
         if sc['invalid_index'] is None and draw(st.booleans()):
